@@ -178,11 +178,14 @@ def check(repo, run, tier):
     g(mr.leaf_winner_table, repo, run, 'C02.R4')
     g(r5, repo, run)
     g(unitrules.list_prefilter_guard, repo, run, 'C02.R3')
+    g(unitrules.list_merge_keys_table, repo, run, 'C02.R5')
     g.done()
 
 
 def mutants(repo):
     return [
+        Mutant('key-equal-to-length-accepted', lambda r: in_func(r, 'ConfigList._validate_index', "(abs(index) > len(self) or index == len(self)) and strict", "abs(index) > len(self) and strict"), ['C02.R5']),
+        Mutant('only-a-truthy-stray-key-is-an-error', lambda r: in_func(r, 'ConfigList.ayns.on_merge_impl', "            if _missing_keys:", "            if _missing_keys and _missing_keys[0]:"), ['C02.R5']),
         Mutant('prefilter-guard-negated', lambda r: in_func(r, 'ConfigList.ayns.on_merge_impl', "if isinstance(other, ComposedNode):", "if not isinstance(other, ComposedNode):"), ['C02.R3']),
         Mutant('fold-skips-second-stage', lambda r: in_func(r, 'Builder.flatten', "range(1, len(self.stages))", "range(2, len(self.stages))"), ['C02.R1']),
         Mutant('fold-receiver-swapped', lambda r: in_func(r, 'Builder.flatten', "root = root.ayns.merge(self.stages[i])", "root = self.stages[i].ayns.merge(root)"), ['C02.R1']),
